@@ -21,6 +21,7 @@ func fm(c int32) proto.Message { return &testproto.ForeignMessage{C: c} }
 
 // target is the resource under test together with its initial model.
 type target struct {
+	fold    bool
 	isValue bool
 	val     *resource.Value
 	col     *resource.Collection
@@ -49,6 +50,12 @@ func newTarget(isValue bool, initial map[string]int32, equivalence ...string) *t
 	var eq []resource.Option
 	if len(equivalence) > 0 {
 		eq = equivalenceOption(equivalence[0])
+	}
+	if len(equivalence) > 1 && equivalence[1] == "fold" && !isValue {
+		// a case-insensitive collection: callers say "X" or "x" and mean the same item
+		eq = append(eq, resource.WithIDInterceptor(strings.ToLower))
+		tg.model.Interceptor = strings.ToLower
+		tg.fold = true
 	}
 	if isValue {
 		opts := append([]resource.Option(nil), eq...)
@@ -100,7 +107,7 @@ func (tg *target) final() map[string]proto.Message {
 }
 
 // drawOp draws a write on id x (sometimes the control id y).
-func drawOp(t *rapid.T, label string, isValue bool) rlib.Op {
+func drawOp(t *rapid.T, label string, isValue bool, fold ...bool) rlib.Op {
 	var op rlib.Op
 	v := int32(rapid.IntRange(0, 3).Draw(t, label+".v")) // 0: an all-default (empty) message
 	op.Val = fm(v)
@@ -109,6 +116,9 @@ func drawOp(t *rapid.T, label string, isValue bool) rlib.Op {
 	} else {
 		op.Kind = rapid.SampledFrom([]rlib.OpKind{rlib.OpAdd, rlib.OpUpdate, rlib.OpUpdate, rlib.OpDelete}).Draw(t, label+".kind")
 		op.ID = rapid.SampledFrom([]string{"x", "x", "x", "x", "y"}).Draw(t, label+".id")
+		if len(fold) > 0 && fold[0] && rapid.Bool().Draw(t, label+".upper") {
+			op.ID = strings.ToUpper(op.ID)
+		}
 	}
 	if op.Kind == rlib.OpDelete {
 		op.Val = nil
@@ -165,13 +175,17 @@ func TestForcedInterleavings(t *testing.T) {
 			initial["y"] = 1
 		}
 		equiv := rapid.SampledFrom(equivalences).Draw(t, "equivalence")
-		tg := newTarget(isValue, initial, equiv)
+		foldIDs := ""
+		if !isValue && rapid.IntRange(0, 2).Draw(t, "foldIDs") == 1 {
+			foldIDs = "fold"
+		}
+		tg := newTarget(isValue, initial, equiv, foldIDs)
 		depth := rapid.IntRange(1, 3).Draw(t, "depth")
 		ops := make([]rlib.Op, depth+1)
-		ops[0] = drawOp(t, "op0", isValue)
+		ops[0] = drawOp(t, "op0", isValue, tg.fold)
 		plan := make([]injection, depth)
 		for d := 0; d < depth; d++ {
-			ops[d+1] = drawOp(t, fmt.Sprintf("op%d", d+1), isValue)
+			ops[d+1] = drawOp(t, fmt.Sprintf("op%d", d+1), isValue, tg.fold)
 			pts := gauPoints
 			if ops[d].Kind == rlib.OpDelete {
 				pts = deletePoints
@@ -215,7 +229,7 @@ func TestForcedInterleavings(t *testing.T) {
 		}()
 		final := tg.final()
 		var desc []string
-		desc = append(desc, fmt.Sprintf("initial=%v equivalence=%q", initial, equiv))
+		desc = append(desc, fmt.Sprintf("initial=%v equivalence=%q caseInsensitiveIDs=%v", initial, equiv, tg.fold))
 		for d := range plan {
 			desc = append(desc, fmt.Sprintf("inject@%s x%d(fired %d): %v", plan[d].point, plan[d].repeat, fired[d], plan[d].op))
 		}
@@ -256,12 +270,16 @@ func sharpInvariants(tg *target, hist []rlib.HistOp, final map[string]proto.Mess
 		if h.Err != nil {
 			continue
 		}
+		id := h.Op.ID
+		if tg.fold {
+			id = strings.ToLower(id)
+		}
 		switch h.Op.Kind {
 		case rlib.OpAdd:
-			adds[h.Op.ID]++
+			adds[id]++
 		case rlib.OpDelete:
 			if h.Ret != nil {
-				dels[h.Op.ID]++
+				dels[id]++
 			}
 		}
 	}
@@ -286,14 +304,18 @@ func TestStressLinearizable(t *testing.T) {
 		if rapid.Bool().Draw(t, "hasX") {
 			initial["x"] = int32(rapid.IntRange(0, 3).Draw(t, "x0"))
 		}
-		tg := newTarget(isValue, initial, rapid.SampledFrom(equivalences).Draw(t, "equivalence"))
+		foldIDs := ""
+		if !isValue && rapid.IntRange(0, 2).Draw(t, "foldIDs") == 1 {
+			foldIDs = "fold"
+		}
+		tg := newTarget(isValue, initial, rapid.SampledFrom(equivalences).Draw(t, "equivalence"), foldIDs)
 		ng := rapid.IntRange(2, 4).Draw(t, "goroutines")
 		scripts := make([][]rlib.Op, ng)
 		total := 0
 		for g := range scripts {
 			n := rapid.IntRange(1, 4).Draw(t, fmt.Sprintf("n%d", g))
 			for i := 0; i < n; i++ {
-				scripts[g] = append(scripts[g], drawOp(t, fmt.Sprintf("g%dop%d", g, i), isValue))
+				scripts[g] = append(scripts[g], drawOp(t, fmt.Sprintf("g%dop%d", g, i), isValue, tg.fold))
 			}
 			total += n
 		}
